@@ -376,6 +376,10 @@ def check_routine(case, out):
             AA = A if A.isa(cola.PSD) or case["alg"] in ("omitted", "Auto", "Eig", "Arnoldi") else (cola.PSD if pd else cola.SelfAdjoint)(A)
             extra = () if alg is None else (alg, )
             if fn.startswith("apply:"):  # user functions, with real and with complex coefficients
+                if fn == "apply:cexp":
+                    # (another matrix function of the same operator class, built just before with a real-valued Python
+                    # function: what one result reports must not depend on what was built earlier in the process)
+                    L.apply_unary(lambda x: x * x + 1.0, AA, *extra)
                 F = L.apply_unary({"cexp": lambda x: np.exp(1j * x), "sin": np.sin}[fn[6:]], AA, *extra)
             elif fn.startswith("pow"):
                 F = L.pow(AA, float(fn[3:]), *extra)
